@@ -645,6 +645,10 @@ class ExtendedIndexedOperand(Operand):
                     max_size = size
                     raw_post_byte |= 0x99 if self.left.is_extended() else 0x98
 
+        # Only an operand that still has to choose its offset width can grow beyond its current size
+        if not post_byte_choices:
+            max_size = size
+
         return CodePackage(
             op_code=NumericValue(self.instruction.mode.ind),
             post_byte=NumericValue(raw_post_byte),
@@ -791,6 +795,10 @@ class IndexedOperand(Operand):
                     size += additional.byte_len()
                     max_size = size
                     raw_post_byte |= 0x89 if self.left.is_extended() else 0x88
+
+        # Only an operand that still has to choose its offset width can grow beyond its current size
+        if not post_byte_choices:
+            max_size = size
 
         return CodePackage(
             op_code=NumericValue(self.instruction.mode.ind),
